@@ -1,10 +1,13 @@
 CLAIM = ("-lh1-: (a) adaptive tree, on scaled instances of the real source (NUM_CODES 3/4/6 through the LHASA_VERIF hook): the real init equals LZHUF "
-         "StartHuff; from an ARBITRARY tree/group state satisfying an explicit invariant one increment_for_code equals one LZHUF update() node-for-node "
-         "(freq/son/prnt under node i <-> R-i) and re-establishes the invariant (inductive, so streams of any length); the rebuild is invoked exactly "
-         "at freq[R] == MAX_FREQ and reconstruct_tree equals LZHUF reconst() from any such state; read_code's walk equals DecodeChar's. "
+         "StartHuff (also concretely at 314 symbols, thorough); from an ARBITRARY tree/group state satisfying an explicit invariant one increment_for_code "
+         "equals one LZHUF update() node-for-node (freq/son/prnt under node i <-> R-i) and re-establishes the invariant - inductive, so streams of any length: "
+         "whole call at NUM_CODES 3 and 4 (inv.*), and cut to one loop iteration with an explicit loop invariant at 4 (quick) and 5, 6 (thorough) "
+         "(skeleton.* + entry.* + iter.*); the rebuild is invoked exactly at freq[R] == MAX_FREQ (threshold) and reconstruct_tree equals LZHUF reconst() "
+         "from any such state at NUM_CODES 3 and 4 (rebuild.*); read_code's walk equals DecodeChar's (walk.*). "
          "(b) real constants: init_offset_table/read_offset equal LZHUF DecodePosition over d_code/d_len generated from the published length "
-         "distribution, for every peeked byte, every low six bits, every alignment and truncation; one lha_lh1_read command from an arbitrary 4 KiB "
-         "window equals LZHUF's literal/copy semantics (quick tier: copy lengths 3..12 symbolic, thorough: 3..60); the unscaled build uses 314/627/32768/4096/3.")
+         "distribution, for every peeked byte, every low six bits, every alignment and truncation (offset); one lha_lh1_read command from an arbitrary 4 KiB "
+         "window equals LZHUF's literal/copy semantics for copy lengths 3..12 (quick) / 3..28 (thorough) at any distance and write position - longer copies "
+         "(29..60) are NOT decided functionally (symbolic 4 KiB ring), only for memory safety (C09 lh1.read); the unscaled build uses 314/627/32768/4096/3 (params).")
 ASSUMPTIONS = ["tree maintenance is decided on scaled instances (NUM_CODES 3, 4, 6; small limit) of the same source text, not at 314 symbols; "
                "a defect that only shows through the numeric values 314/627/32768 is outside the claim (memory safety of those: C09)",
                "bit reader replaced by its specification (bits of a byte string, MSB first, failure when fewer bits remain): refinement is C01 bits.*",
@@ -90,8 +93,7 @@ HARNESSES = [
     iter_(4, 32, 15, "both", 300),
 ] + iter_aux(4, 32, "both") + iter_aux(6, 64, "both") + [
     iter_(5, 48, 1, "thorough", 1800), iter_(5, 48, 2, "thorough", 1800), iter_(5, 48, 4, "thorough", 1800), iter_(5, 48, 8, "thorough", 1800),
-    iter_(6, 64, 1, "thorough", 1800), iter_(6, 64, 8, "thorough", 1800), iter_(6, 64, 16, "thorough", 2400), iter_(6, 64, 32, "thorough", 2400),
-    iter_(6, 64, 64, "thorough", 2400), iter_(6, 64, 128, "thorough", 2400), iter_(6, 64, 256, "thorough", 2400),
+    iter_(6, 64, 1, "thorough", 1800), iter_(6, 64, 2, "thorough", 2700), iter_(6, 64, 4, "thorough", 2700), iter_(6, 64, 8, "thorough", 1800),
     dict(name="walk.n4", src="C02/inv.c", entry="harness_walk", defines=sc(4, 32) + ["WALK_HARNESS", "BITS_SPEC"],
          rename_defs=dict(BITS, **{"lib/lh1_decoder.c": ["increment_for_code"]}), unwind=9, unwindset={"read_code.0": 4, "harness_walk.1": 4}, timeout=120,
          units=["lib/lh1_decoder.c:read_code"], bounds="NUM_CODES=4: arbitrary invariant-satisfying tree, symbolic 2-byte bit string, any alignment, any end of data",
@@ -105,7 +107,7 @@ HARNESSES = [
          units=["lib/lh1_decoder.c:increment_for_code"],
          bounds="NUM_CODES=4, limit 32: arbitrary invariant-satisfying state with ANY root count 4..32, arbitrary symbol: rebuild called iff root count == limit, before the increment",
          stubs=["reconstruct_tree: recording stub"]),
-    rebuild(3, 16, 15, "both", 400), rebuild(4, 32, 1, "both", 500), rebuild(4, 32, 14, "both", 500),
+    rebuild(3, 16, 15, "both", 400), rebuild(4, 32, 1, "both", 600), rebuild(4, 32, 14, "both", 600),
         dict(name="rebuild_pre.n4", src="C02/rebuild.c", entry="harness_rebuild_pre", defines=sc(4, 32), unwind=9, timeout=120, tier="thorough",
          bounds="NUM_CODES=4: invariant with root count == limit implies the weaker precondition (leaf entries only) that C09 lh1.rebuild uses"),
     dict(name="rebuild_step.n3", src="C02/rebuild.c", entry="harness_rebuild_step", defines=sc(3, 16), unwind=7, unwindset=rb_unwind(3), timeout=1800, tier="thorough",
